@@ -282,6 +282,13 @@ impl Changeset {
     }
 }
 
+// a length prefix read from a peer must not drive an allocation on its own:
+// reserve at most this many elements up front, the collection grows as the
+// elements are actually decoded
+fn wire_capacity(len: usize) -> usize {
+    len.min(1024)
+}
+
 impl<'a, C> Readable<'a, C> for Changeset
 where
     C: Context,
@@ -314,7 +321,7 @@ where
             }
             2 => {
                 let versions_len = usize::read_from(reader)?;
-                let mut versions = Vec::with_capacity(versions_len);
+                let mut versions = Vec::with_capacity(wire_capacity(versions_len));
                 for _ in 0..versions_len {
                     let start = CrsqlDbVersion::read_from(reader)?;
                     let end = CrsqlDbVersion::read_from(reader)?;
